@@ -10,6 +10,7 @@
      for i := range a                      zfor 0 (zlen a) ...
      for _, v := range a                   fold_left (fun state v => body) a state
      make([]T, n)                          zrepeat zero n
+     f(args) / w.Write(x) statements of a trace target   RgCall args / RgOut x  (rg_ev, run_trace)
      x / y, x % y on int                   Z.quot, Z.rem (truncation toward zero)
      x << y, x | y, x & y                  Z.shiftl, Z.lor, Z.land *)
 From Coq Require Import ZArith List Bool Lia.
@@ -28,6 +29,15 @@ Fixpoint upd_nth {A : Type} (l : list A) (n : nat) (x : A) : list A :=
 Definition zupd {A : Type} (l : list A) (i : Z) (x : A) : list A := if i <? 0 then l else upd_nth l (Z.to_nat i) x.
 Definition zlen {A : Type} (l : list A) : Z := Z.of_nat (length l).
 Definition zrepeat {A : Type} (x : A) (n : Z) : list A := repeat x (Z.to_nat n).
+
+(* trace targets: a Go function without a result whose only effects are calls of itself and
+   outputs to a writer is translated to the list of these events, in execution order *)
+Inductive rg_ev (A B : Type) : Type := RgCall (a : A) | RgOut (b : B).
+Arguments RgCall {A B} a.
+Arguments RgOut {A B} b.
+(* the output of a run: a recursive call contributes the output of that call *)
+Definition run_trace {A X : Type} (rec : A -> list X) (evs : list (rg_ev A (list X))) : list X :=
+  flat_map (fun e => match e with RgCall a => rec a | RgOut b => b end) evs.
 
 (* ------------------------------------------------------------------ lemmas *)
 
